@@ -54,6 +54,9 @@ pub fn metric_text(id: &str, out: &Out, pad: usize) -> String {
         3 => ("", "\u{feff}é🎉".to_string()),
         4 => ("\t ", String::new()),
         5 if pad > 0 => ("", "L".repeat(3000)),
+        // long multi-byte tails: byte offsets like 48 or 64 fall inside a character for some of them
+        6 => ("", "é🎉ж".repeat(8 + (h / 11 % 12) as usize)),
+        7 => ("", format!("{}{}", "a".repeat((h / 13 % 5) as usize), "中文".repeat(15))),
         _ => ("", String::new()),
     };
     format!("{}{}{}{}|{}", pre, id, "x".repeat(pad), post, tail)
@@ -110,6 +113,9 @@ impl Ev {
 }
 
 pub struct St {
+    /// flush() of the wrapped sink waits while one of its emits is in progress and panics once an emit has panicked -
+    /// exactly what the library's own buffered sinks do (Mutex held across emit, lock().unwrap() in flush)
+    pub flush_like_buffered_sink: bool,
     pub log: Vec<Ev>,
     pub permits: usize,
     pub open: bool,
@@ -125,7 +131,7 @@ pub struct Shared {
 
 impl Shared {
     pub fn new(gated: bool) -> Arc<Shared> {
-        Arc::new(Shared { st: Mutex::new(St { log: Vec::new(), permits: 0, open: !gated, in_call: 0, sleep_us: (0, 0) }), cv: Condvar::new() })
+        Arc::new(Shared { st: Mutex::new(St { flush_like_buffered_sink: false, log: Vec::new(), permits: 0, open: !gated, in_call: 0, sleep_us: (0, 0) }), cv: Condvar::new() })
     }
     pub fn push(&self, e: Ev) {
         let mut g = self.st.lock().unwrap_or_else(|e| e.into_inner());
@@ -192,15 +198,39 @@ impl MetricSink for GatedSink {
         }
         match out {
             // the value a wrapped sink returns with Ok is its own business (NopMetricSink returns 0): vary it
-            Out::Ok => Ok(match crate::rng::hash_str(metric) % 4 {
+            Out::Ok => Ok(match crate::rng::hash_str(metric) % 7 {
                 0 => 0,
                 1 => usize::MAX,
+                2 => 1,
+                3 => metric.len().saturating_sub(1),
+                4 => metric.len() / 2,
                 _ => metric.len(),
             }),
             Out::Err(k) => Err(io::Error::new(ERR_KINDS[k as usize % ERR_KINDS.len()], format!("scripted-error:{}", metric))),
             Out::Panic => panic!("scripted-panic:{}", metric),
             Out::Blank(_) => Ok(metric.len()),
         }
+    }
+
+    fn flush(&self) -> io::Result<()> {
+        self.flush_impl()
+    }
+}
+
+impl GatedSink {
+    fn flush_impl(&self) -> io::Result<()> {
+        let mut g = self.sh.st.lock().unwrap_or_else(|e| e.into_inner());
+        if !g.flush_like_buffered_sink {
+            return Ok(());
+        }
+        while g.in_call > 0 {
+            g = self.sh.cv.wait(g).unwrap_or_else(|e| e.into_inner());
+        }
+        if g.log.iter().any(|e| matches!(e, Ev::Exit { out: Out::Panic, .. })) {
+            drop(g);
+            panic!("scripted-panic: flush on a sink whose lock was poisoned by an earlier panic");
+        }
+        Ok(())
     }
 }
 
